@@ -7,7 +7,7 @@ pub fn def() -> PropDef {
     PropDef {
         id: "C19",
         builds: BOTH,
-        rule: "every text over {SP,TAB,L,NL,CRLF,NBSP,L} up to length N x prefixes {\"\",\"  \",\"# \",\">\",TAB,\" x \"}; non-trivial = a text with >= 2 lines of which one is whitespace-only or empty, under a non-empty prefix",
+        rule: "every text over {SP,TAB,L,NL,CRLF,NBSP,L,SHY (non-whitespace sharing NBSP's UTF-8 lead byte)} up to length N x prefixes {\"\",\"  \",\"# \",\">\",TAB,\" x \"}; non-trivial = a text with >= 2 lines of which one is whitespace-only or empty, under a non-empty prefix",
         assumptions: BASE_ASSUMPTIONS,
         floor: |t| t.pick(10_000, 500_000),
         run,
@@ -16,8 +16,8 @@ pub fn def() -> PropDef {
 
 fn run(r: &mut Run) -> Result<(), MachineryError> {
     let t = r.tier;
-    let alpha = [SP, TAB, L, NL, CRLF, NB, L];
-    let n = t.pick(6, 8);
+    let alpha = [SP, TAB, L, NL, CRLF, NB, L, SHY];
+    let n = t.pick(6, 7);
     let space = Space { name: "C19/texts".into(), menu: menu(&alpha), max_len: n, desc: format!("texts of length <= {} x 6 prefixes", n) };
     r.space(space, |seq, cx| {
         let s = build(seq, &alpha);
